@@ -114,6 +114,38 @@ class Ctx:
             self._specdir = d
         return self._specdir
 
+    def tlaps(self, module, timeout=900, expect_failure=False, edit=None):
+        """Check the proofs of spec/<module>.tla with the TLA+ proof system in the scratch copy.
+        Returns the number of proved obligations.  edit: (old, new) textual replacement applied to a
+        copy of the module first (used to show that the proof is not vacuous: it must then fail)."""
+        d = self.specdir()
+        name = module
+        if edit:
+            name = module + "Mut"
+            t = open(os.path.join(d, module + ".tla")).read()
+            if edit[0] not in t:
+                raise Infra("tlaps edit text not found in %s" % module)
+            t = t.replace(edit[0], edit[1]).replace("MODULE " + module, "MODULE " + name)
+            open(os.path.join(d, name + ".tla"), "w").write(t)
+        t0 = time.time()
+        try:
+            p = subprocess.run(["tlapm", "--threads", "12", name + ".tla"], cwd=d, capture_output=True, text=True, timeout=timeout)
+        except subprocess.TimeoutExpired:
+            raise Infra("tlapm timed out on %s" % name)
+        out = (p.stdout or "") + (p.stderr or "")
+        m = re.search(r"All (\d+) obligations? proved", out)
+        f = re.search(r"(\d+)/(\d+) obligations? failed", out)
+        self.log("TLAPS %s: %s, %.1fs" % (name, m.group(0) if m else (f.group(0) if f else "no verdict"), time.time() - t0))
+        if expect_failure:
+            if not f:
+                raise Infra("tlapm proved (or could not read) the broken variant %s:\n%s" % (name, out[-1500:]))
+            return 0
+        if not m:
+            raise Infra("tlapm did not prove %s:\n%s" % (name, out[-3000:]))
+        n = int(m.group(1))
+        self.tlc_runs.append({"module": name, "tool": "tlapm", "obligations_proved": n, "wall_s": round(time.time() - t0, 1)})
+        return n
+
     def tlc(self, module, cfg_text=None, cfg=None, workers=4, timeout=600, simulate=None,
             depth=None, extra=(), heap="4g", seed=None, count=True, allow_violation=False,
             deadlock=False, dfs=False):
